@@ -40,6 +40,10 @@ K = (
     Kind("br-attr", 0, 0, n_succ=1, terminator=True, attr="x"),  # 16
 )
 BASE = 8  # kinds [0, BASE) are enumerated, the rest arise from mutation
+K_DEFAULT = K
+# the same alphabet with the region-carrying op WITHOUT results (func.func / builtin.module shape): values used before their
+# definition inside a region of a result-less op
+K_REG0 = K[:6] + (Kind("reg0", 0, 0, region=True),) + K[7:]
 VARIANTS = {0: (7, 8, 9, 10), 7: (0, 9, 10), 1: (12, 13), 3: (14,), 6: (15,), 4: (16,), 10: (11,)}
 
 
@@ -137,7 +141,7 @@ def check_desc(st: Stats, desc: tuple, do_mutants: bool = True) -> None:
     cx = canon(x.region)
     st.states += 1
     st.executions += 1
-    wit = {"desc": desc}
+    wit = {"desc": desc, "reg0": K is K_REG0}
     # reflexive
     eq_all(st, x, x, True, "reflexive", wit)
     # twin (independently rebuilt) and clone
@@ -242,7 +246,7 @@ def check_desc(st: Stats, desc: tuple, do_mutants: bool = True) -> None:
         expect = cy == cx
         st.executions += 1
         st.outcomes[("iso:" if expect else "diff:") + label.split(":")[0]] += 1
-        eq_all(st, x, y, expect, label.replace("nested:", ""), {"desc": desc, "mutant": d2, "mutation": label})
+        eq_all(st, x, y, expect, label.replace("nested:", ""), {"desc": desc, "reg0": K is K_REG0, "mutant": d2, "mutation": label})
 
 
 def check_attr_order(st: Stats) -> None:
@@ -364,12 +368,14 @@ def _defined_in(op) -> list:
 def _shard(arg) -> Stats:
     bounds, shard, nshards, seed = arg
     st = Stats()
+    bounds = dict(bounds)
+    globals()["K"] = K_REG0 if bounds.pop("reg0", False) else K_DEFAULT
     for i, desc in enumerate(irgen.enumerate_regions(K[:BASE], **bounds)):
         if i % nshards != shard:
             continue
         check_desc(st, desc)
         if (i + seed) % 9973 == 0:
-            st.sample({"desc": desc})
+            st.sample({"desc": desc, "reg0": K is K_REG0})
     return st
 
 
@@ -393,10 +399,12 @@ def _cross(arg) -> Stats:
 
 def run(ctx):
     if ctx.quick:
-        spaces = [dict(max_blocks=2, max_ops=2, max_args=1, depth=1), dict(max_blocks=1, max_ops=3, max_args=1, depth=1)]
+        spaces = [dict(max_blocks=2, max_ops=2, max_args=1, depth=1), dict(max_blocks=1, max_ops=3, max_args=1, depth=1),
+                  dict(max_blocks=1, max_ops=2, max_args=0, depth=1, reg0=True)]
         cross = dict(max_blocks=1, max_ops=2, max_args=1, depth=1)
     else:
-        spaces = [dict(max_blocks=2, max_ops=3, max_args=1, depth=1), dict(max_blocks=3, max_ops=2, max_args=0, depth=0)]
+        spaces = [dict(max_blocks=2, max_ops=3, max_args=1, depth=1), dict(max_blocks=3, max_ops=2, max_args=0, depth=0),
+                  dict(max_blocks=2, max_ops=2, max_args=1, depth=1, reg0=True)]
         cross = dict(max_blocks=2, max_ops=2, max_args=1, depth=1)
     check_attr_order(ctx.stats)
     check_region_shapes(ctx.stats)
@@ -421,6 +429,7 @@ def replay(rep) -> bool:
     def tup(x):
         return tuple(tup(y) for y in x) if isinstance(x, list) else x
     w = rep["witness"]
+    globals()["K"] = K_REG0 if w.get("reg0") else K_DEFAULT
     if "other" in w:
         a, b = irgen.build_region(tup(w["desc"]), K), irgen.build_region(tup(w["other"]), K)
         return a.region.is_structurally_equivalent(b.region) == (canon(a.region) == canon(b.region))
